@@ -482,6 +482,9 @@ func (c *OpContext) makeAltPath() (a []string) {
 // only happens when the error is actually rendered (the minority case).
 func (e *ValueError) Msg() (format string, args []interface{}) {
 	format, args = e.Message.Msg()
+	// The error may be shared between goroutines: do not modify the
+	// argument slice of the message itself.
+	args = slices.Clone(args)
 	for i, a := range args {
 		if x, ok := a.(Node); ok {
 			args[i] = Formatter{X: x, F: e.format, R: e.r}
